@@ -20,8 +20,10 @@ theorem ofDim_dim {l : Layer} {ss : Scalar} {dm : Dim} (h1 : l.extractScalar = s
 /-- a conversion without dimension, primary and modifier cast connects equal types -/
 theorem trivial_conv_same {s d : ETy} {c : Conversion} (hf : find s d = .ok (some c))
     (hc : c.dimCast = none ∧ c.primary = none ∧ c.modCast = none) : s.ty = d.ty := by
-  obtain ⟨_, _, _, hdc, hpc, hmc⟩ := find_inv hf
-  rw [hc.1] at hdc; rw [hc.2.1] at hpc; rw [hc.2.2] at hmc
+  obtain ⟨_, _, _, hdc, hpc, mc0, hmc, hsh⟩ := find_inv hf
+  rw [hc.1] at hdc; rw [hc.2.1] at hpc; rw [hc.2.2, hc.2.1] at hsh
+  have hmc0 : mc0 = none := by cases mc0 <;> simp [sharedModifierCast] at hsh ⊢
+  subst hmc0
   have hm : s.ty.mod = d.ty.mod := by
     rcases modifierCast_some hmc with ⟨h, _⟩ | ⟨_, h⟩
     · simp at h
@@ -41,50 +43,51 @@ theorem trivial_conv_same {s d : ETy} {c : Conversion} (hf : find s d = .ok (som
   subst hm hlay
   rfl
 
-/-- **Type of a converted operand.**  After `apply`, the operand has the destination's layer; its modifier is the
-    destination's or none; and it is either the operand itself (then the types were equal) or an rvalue. -/
+/-- **Type of a converted operand.**  After `apply` the operand has exactly the destination type; it is either the
+    operand itself (then it already had that type) or an rvalue (a re-tagged literal or a cast). -/
 theorem applyConv_type {e e' : IExpr} {s d : ETy} {c : Conversion} (he : HasType Γ e s)
     (hf : find s d = .ok (some c)) (ha : applyConv c e = .ok e') :
-    ∃ τ', HasType Γ e' τ' ∧ τ'.ty.layer = d.ty.layer ∧ (τ'.ty.mod = d.ty.mod ∨ τ'.ty.mod = {}) ∧
-      ((e' = e ∧ τ' = s ∧ s.ty = d.ty) ∨ τ'.vt = .rvalue) := by
-  obtain ⟨t, ht, hv, hl, hm⟩ := targetType_ok hf
-  have hmod : t.ty.mod = d.ty.mod ∨ t.ty.mod = {} := by
-    rcases hm with h | ⟨h, _⟩
-    · exact Or.inl h
-    · exact Or.inr h
+    ∃ τ', HasType Γ e' τ' ∧ τ'.ty = d.ty ∧ ((e' = e ∧ τ' = s) ∨ τ'.vt = .rvalue) := by
+  have ht := targetType_ok hf
   unfold applyConv at ha
   split at ha
   · rename_i hc
     simp at ha; subst ha
-    have := trivial_conv_same hf hc
-    exact ⟨s, he, by rw [this], Or.inl (by rw [this]), Or.inl ⟨rfl, rfl, this⟩⟩
+    exact ⟨s, he, trivial_conv_same hf hc, Or.inl ⟨rfl, rfl⟩⟩
   · rw [ht] at ha
     simp only at ha
     split at ha
-    · rename_i k hk
-      split at ha
-      · rename_i k' hk'
-        simp at ha; subst ha
-        have := (retag_same k k').1 hk'
-        subst this
-        exact ⟨(scalarTy k').r, .lit _, by simp [scalarTy, Ty.r, ← hl, hk], Or.inr rfl, Or.inr rfl⟩
-      · simp at ha; subst ha
-        exact ⟨t.ty.r, .cast he, hl, hmod, Or.inr rfl⟩
-    · rename_i k hk
-      split at ha
-      · rename_i k' hk'
-        simp at ha; subst ha
-        have := (retag_same k k').2 hk'
-        subst this
-        exact ⟨(scalarTy k').r, .lit _, by simp [scalarTy, Ty.r, ← hl, hk], Or.inr rfl, Or.inr rfl⟩
-      · simp at ha; subst ha
-        exact ⟨t.ty.r, .cast he, hl, hmod, Or.inr rfl⟩
     · simp at ha; subst ha
-      exact ⟨t.ty.r, .cast he, hl, hmod, Or.inr rfl⟩
+      exact ⟨d.ty.r, .cast he, rfl, Or.inr rfl⟩
+    · rename_i hg
+      have hd0 : d.ty.mod = {} := by
+        by_cases h0 : d.ty.mod = {}
+        · exact h0
+        · exfalso; apply hg; simp [h0]; decide
+      split at ha
+      · rename_i k hk
+        split at ha
+        · rename_i k' hk'
+          simp at ha; subst ha
+          have := (retag_same k k').1 hk'
+          subst this
+          exact ⟨(scalarTy k').r, .lit _, ty_ext (by simp [scalarTy, Ty.r, hd0]) (by simp [scalarTy, Ty.r, hk]), Or.inr rfl⟩
+        · simp at ha; subst ha
+          exact ⟨d.ty.r, .cast he, rfl, Or.inr rfl⟩
+      · rename_i k hk
+        split at ha
+        · rename_i k' hk'
+          simp at ha; subst ha
+          have := (retag_same k k').2 hk'
+          subst this
+          exact ⟨(scalarTy k').r, .lit _, ty_ext (by simp [scalarTy, Ty.r, hd0]) (by simp [scalarTy, Ty.r, hk]), Or.inr rfl⟩
+        · simp at ha; subst ha
+          exact ⟨d.ty.r, .cast he, rfl, Or.inr rfl⟩
+      · simp at ha; subst ha
+        exact ⟨d.ty.r, .cast he, rfl, Or.inr rfl⟩
 
 theorem convert_type {e e' : IExpr} {s d t : ETy} (he : HasType Γ e s) (h : convert e s d = .ok (some (e', t))) :
-    ∃ τ', HasType Γ e' τ' ∧ τ'.ty.layer = d.ty.layer ∧ (τ'.ty.mod = d.ty.mod ∨ τ'.ty.mod = {}) ∧
-      ((e' = e ∧ τ' = s ∧ s.ty = d.ty) ∨ τ'.vt = .rvalue) := by
+    t = d ∧ ∃ τ', HasType Γ e' τ' ∧ τ'.ty = d.ty ∧ ((e' = e ∧ τ' = s) ∨ τ'.vt = .rvalue) := by
   unfold convert at h
   split at h
   · simp at h
@@ -93,10 +96,9 @@ theorem convert_type {e e' : IExpr} {s d t : ETy} (he : HasType Γ e s) (h : con
     split at h
     · simp at h
     · rename_i e'' ha
-      split at h
-      · simp at h
-      · simp at h; obtain ⟨rfl, _⟩ := h
-        exact applyConv_type he hf ha
+      rw [targetType_ok hf] at h
+      simp at h; obtain ⟨rfl, rfl⟩ := h
+      exact ⟨rfl, applyConv_type he hf ha⟩
 
 /-- argument types against parameter types: exactly equal, position by position (fewer arguments than parameters are
     allowed: defaulted parameters) -/
@@ -106,9 +108,9 @@ def ArgsMatch : List ETy → List Param → Prop
   | _ :: _, [] => False
 
 theorem castArgs_exact : ∀ (ps : List Param) (as : IArgs) (ts : List ETy) (as' : IArgs),
-    (∀ p ∈ ps, p.ty.mod = {}) → HasArgs Γ as ts → castArgs ps as ts = .ok as' →
+    HasArgs Γ as ts → castArgs ps as ts = .ok as' →
     ∃ us, HasArgs Γ as' us ∧ ArgsMatch us ps
-  | p :: ps, .cons e r, t :: ts, as', hp, hu, h => by
+  | p :: ps, .cons e r, t :: ts, as', hu, h => by
     cases hu with
     | cons he hr =>
       simp only [castArgs] at h
@@ -120,20 +122,13 @@ theorem castArgs_exact : ∀ (ps : List Param) (as : IArgs) (ts : List ETy) (as'
         · simp at h
         · rename_i r' hr'
           simp at h; subst h
-          obtain ⟨τ', h1, hl, hm, _⟩ := convert_type he hc
-          obtain ⟨us, h2, h3⟩ := castArgs_exact ps r ts r' (fun q hq => hp q (List.mem_cons_of_mem _ hq)) hr hr'
-          refine ⟨τ' :: us, .cons h1 h2, ?_, h3⟩
-          have hpm : p.ty.mod = {} := hp p List.mem_cons_self
-          have hmod : τ'.ty.mod = p.ty.mod := by
-            rcases hm with hm | hm
-            · simpa [Param.ety] using hm
-            · rw [hm, hpm]
-          have hlay : τ'.ty.layer = p.ty.layer := by simpa [Param.ety] using hl
-          exact ty_ext hmod hlay
-  | _, .nil, [], as', _, _, h => by
+          obtain ⟨_, τ', h1, hty, _⟩ := convert_type he hc
+          obtain ⟨us, h2, h3⟩ := castArgs_exact ps r ts r' hr hr'
+          exact ⟨τ' :: us, .cons h1 h2, by simpa [Param.ety] using hty, h3⟩
+  | _, .nil, [], as', _, h => by
     simp [castArgs] at h; subst h; exact ⟨[], .nil, trivial⟩
-  | [], .cons _ _, _ :: _, _, _, _, h => by simp [castArgs] at h
-  | _, .cons _ _, [], _, _, _, h => by simp [castArgs] at h
-  | _, .nil, _ :: _, _, _, _, h => by simp [castArgs] at h
+  | [], .cons _ _, _ :: _, _, _, h => by simp [castArgs] at h
+  | _, .cons _ _, [], _, _, h => by simp [castArgs] at h
+  | _, .nil, _ :: _, _, _, h => by simp [castArgs] at h
 
 end RsslVerif.Lemmas.ElabExact
